@@ -31,7 +31,10 @@ package wire
 //@ define wfSrcMap(m *typeutil.Map) = forall k int :: TMD[m][k] ==> (TMV[m][k] is *providerSetSrc) && wfSrc(TMV[m][k].(*providerSetSrc))
 //@ define wfProvMap(m *typeutil.Map) = forall k int :: TMD[m][k] ==> (TMV[m][k] is *ProvidedType) && wfPT(TMV[m][k].(*ProvidedType))
 //@ fieldinv ProviderSet.srcMap v != nil ==> wfSrcMap(v)
-//@ fieldinv ProviderSet.providerMap v != nil ==> wfProvMap(v)
+// every entry is filed under its own type, or (binding alias) under an interface type whose concrete
+// type has its own, direct entry in the same map
+//@ define dOA(m *typeutil.Map) = forall k int :: TMD[m][k] ==> tid(TMV[m][k].(*ProvidedType).t) == k || (TMD[m][tid(TMV[m][k].(*ProvidedType).t)] && tid(TMV[m][tid(TMV[m][k].(*ProvidedType).t)].(*ProvidedType).t) == tid(TMV[m][k].(*ProvidedType).t))
+//@ fieldinv ProviderSet.providerMap v != nil ==> wfProvMap(v) && dOA(v)
 
 //@ globalinv cleanupType v != nil
 //@ globalinv errorType v != nil
@@ -166,6 +169,8 @@ package wire
 //@   frame forall q int :: old(TMD[providerMap][q]) ==> TMD[providerMap][q] && TMV[providerMap][q] == old(TMV[providerMap][q])
 //@   frame forall m int, q int :: m != srcMap && m != providerMap ==> TMD[m][q] == old(TMD[m][q]) && TMV[m][q] == old(TMV[m][q])
 //@   each [C05] q :: len(ec.errors) == 0 ==> TMD[srcMap][q] && isImpSrc(TMV[srcMap][q].(*providerSetSrc), src.Import)
+//@   each [C02] q :: len(ec.errors) == 0 ==> TMD[providerMap][q] && TMV[providerMap][q] == TMV[src.Import.providerMap][q]
+//@   frame [C02] forall q int :: TMD[providerMap][q] && !old(TMD[providerMap][q]) ==> TMD[src.Import.providerMap][q] && TMV[providerMap][q] == TMV[src.Import.providerMap][q]
 //@   props C05
 
 // C11: a binding is accepted only next to a source of its concrete type, and the interface key then
@@ -183,32 +188,43 @@ package wire
 //@   ensures [C11] len(result.2) == 0 ==> boundTo(result.0, set.Bindings, len(set.Bindings))
 //@   ensures [C05] len(result.2) == 0 ==> mapsOK(result.0, result.1)
 //@   ensures [C02] len(result.2) == 0 ==> provArgsAll(result.0, set)
+//@   ensures len(result.2) == 0 ==> dOA(result.0)
+//@   ensures len(result.2) > 0 ==> result.0 == nil && result.1 == nil
+//@   ensures [C02] len(result.2) == 0 ==> canon(result.0)
 //@   ensures [C05] len(result.2) == 0 ==> ownsAllArgs(result.1, set) && ownsImps(result.1, set.Imports, len(set.Imports)) && ownsProvs(result.1, set.Providers, len(set.Providers)) && ownsVals(result.1, set.Values, len(set.Values)) && ownsFields(result.1, set.Fields, len(set.Fields)) && ownsBinds(result.1, set.Bindings, len(set.Bindings))
 //@   ensures [C05] len(result.2) == 0 ==> forall i, j :: 0 <= i && i < len(set.Values) && 0 <= j && j < len(set.Values) && tid(set.Values[i].Out) == tid(set.Values[j].Out) ==> set.Values[i] == set.Values[j]
 //@   ensures [C05] len(result.2) == 0 ==> forall i, o, j :: 0 <= i && i < len(set.Providers) && 0 <= o && o < len(set.Providers[i].Out) && 0 <= j && j < len(set.Values) ==> tid(set.Providers[i].Out[o]) != tid(set.Values[j].Out)
 //@   ensures [C05] len(result.2) == 0 ==> forall i, j :: 0 <= i && i < len(set.Bindings) && 0 <= j && j < len(set.Values) ==> tid(set.Bindings[i].Iface) != tid(set.Values[j].Out)
 //@   loop 1 invariant mapsOK(providerMap, srcMap) && ec != nil
+//@   loop 1 invariant len(ec.errors) == 0 ==> dOA(providerMap)
 //@   loop 1 invariant [C05] len(ec.errors) == 0 ==> ownsArgs(srcMap, givens, i)
 //@   loop 1 invariant [C02] len(ec.errors) == 0 ==> provArgs(providerMap, givens, i)
 //@   loop 2 invariant mapsOK(providerMap, srcMap) && ec != nil
+//@   loop 2 invariant len(ec.errors) == 0 ==> dOA(providerMap)
 //@   loop 2 invariant [C02] len(ec.errors) == 0 ==> provArgsAll(providerMap, set)
 //@   loop 2 invariant [C05] len(ec.errors) == 0 ==> ownsAllArgs(srcMap, set) && ownsImps(srcMap, set.Imports, done)
 //@   loop 3 invariant mapsOK(providerMap, srcMap) && ec != nil
+//@   loop 3 invariant len(ec.errors) == 0 ==> dOA(providerMap)
 //@   loop 3 invariant [C02] len(ec.errors) == 0 ==> provArgsAll(providerMap, set)
 //@   loop 3 invariant [C05] len(ec.errors) == 0 ==> ownsAllArgs(srcMap, set) && ownsImps(srcMap, set.Imports, len(set.Imports)) && ownsProvs(srcMap, set.Providers, done)
 //@   loop 4 invariant mapsOK(providerMap, srcMap) && ec != nil
+//@   loop 4 invariant len(ec.errors) == 0 ==> dOA(providerMap)
 //@   loop 4 invariant [C02] len(ec.errors) == 0 ==> provArgsAll(providerMap, set) && wfSrc(src) && isProvSrc(src, p)
 //@   loop 4 invariant [C05] len(ec.errors) == 0 ==> ownsAllArgs(srcMap, set) && ownsImps(srcMap, set.Imports, len(set.Imports)) && ownsProvs(srcMap, set.Providers, done3) && ownsOuts(srcMap, p, done)
 //@   loop 5 invariant mapsOK(providerMap, srcMap) && ec != nil
+//@   loop 5 invariant len(ec.errors) == 0 ==> dOA(providerMap)
 //@   loop 5 invariant [C02] len(ec.errors) == 0 ==> provArgsAll(providerMap, set)
 //@   loop 5 invariant [C05] len(ec.errors) == 0 ==> ownsAllArgs(srcMap, set) && ownsImps(srcMap, set.Imports, len(set.Imports)) && ownsProvs(srcMap, set.Providers, len(set.Providers)) && ownsVals(srcMap, set.Values, done)
 //@   loop 6 invariant mapsOK(providerMap, srcMap) && ec != nil
+//@   loop 6 invariant len(ec.errors) == 0 ==> dOA(providerMap)
 //@   loop 6 invariant [C02] len(ec.errors) == 0 ==> provArgsAll(providerMap, set)
 //@   loop 6 invariant [C05] len(ec.errors) == 0 ==> ownsAllArgs(srcMap, set) && ownsImps(srcMap, set.Imports, len(set.Imports)) && ownsProvs(srcMap, set.Providers, len(set.Providers)) && ownsVals(srcMap, set.Values, len(set.Values)) && ownsFields(srcMap, set.Fields, done)
 //@   loop 7 invariant mapsOK(providerMap, srcMap) && ec != nil
+//@   loop 7 invariant len(ec.errors) == 0 ==> dOA(providerMap)
 //@   loop 7 invariant [C02] len(ec.errors) == 0 ==> provArgsAll(providerMap, set) && wfSrc(src) && isFieldSrc(src, f)
 //@   loop 7 invariant [C05] len(ec.errors) == 0 ==> ownsAllArgs(srcMap, set) && ownsImps(srcMap, set.Imports, len(set.Imports)) && ownsProvs(srcMap, set.Providers, len(set.Providers)) && ownsVals(srcMap, set.Values, len(set.Values)) && ownsFields(srcMap, set.Fields, done6) && ownsFOuts(srcMap, f, done)
 //@   loop 8 invariant mapsOK(providerMap, srcMap) && ec != nil
+//@   loop 8 invariant len(ec.errors) == 0 ==> dOA(providerMap)
 //@   loop 8 invariant [C11] len(ec.errors) == 0 ==> boundTo(providerMap, set.Bindings, done)
 //@   loop 8 invariant [C02] len(ec.errors) == 0 ==> provArgsAll(providerMap, set)
 //@   loop 8 invariant [C05] len(ec.errors) == 0 ==> ownsAllArgs(srcMap, set) && ownsImps(srcMap, set.Imports, len(set.Imports)) && ownsProvs(srcMap, set.Providers, len(set.Providers)) && ownsVals(srcMap, set.Values, len(set.Values)) && ownsFields(srcMap, set.Fields, len(set.Fields)) && ownsBinds(srcMap, set.Bindings, done)
@@ -464,6 +480,7 @@ package wire
 //@   nullable doc
 //@   requires set.providerMap != nil && mapsOK(set.providerMap, set.srcMap)
 //@   requires [C02] provArgs(set.providerMap, sig.Params(), sig.Params().Len())
+//@   requires [C02] canon(set.providerMap)
 //@   loop 1 invariant ec != nil
 //@   loop 1 invariant forall k :: 0 <= k && k < len(pendingVars) ==> pendingVars[k].typeInfo != nil && pendingVars[k].expr != nil
 //@   loop 1 invariant [C09] len(ec.errors) == 0 ==> forall k :: 0 <= k && k < done ==> (calls[k].hasCleanup ==> injectSig.cleanup) && (calls[k].hasErr ==> injectSig.err)
@@ -648,6 +665,7 @@ package wire
 //@   ensures [C01] (t.Underlying() is *types.Chan) || (t.Underlying() is *types.Interface) || (t.Underlying() is *types.Map) || (t.Underlying() is *types.Pointer) || (t.Underlying() is *types.Signature) || (t.Underlying() is *types.Slice) ==> result == "nil"
 //@ func injectorFuncSignature
 //@   ensures result.2 == nil ==> result.1.out != nil
+//@   ensures result.2 == nil ==> result.0 == sig.Params()
 //@   ensures result.2 == nil ==> result.0 != nil && okSig(sig)
 // What the front end hands to processNewSet: one of the five item kinds; provider sets carry their maps.
 //@ define validItem(x interface{}) = (x is *Provider) || ((x is *ProviderSet) && x.(*ProviderSet).providerMap != nil && x.(*ProviderSet).srcMap != nil) || (x is *IfaceBinding) || (x is *Value) || (x is []*Field)
@@ -671,6 +689,7 @@ package wire
 //@   ensures len(result.1) == 0 ==> result.0 != nil && result.0.providerMap != nil && result.0.srcMap != nil
 //@   ensures len(result.1) == 0 ==> mapsOK(result.0.providerMap, result.0.srcMap)
 //@   ensures [C02] len(result.1) == 0 && args != nil ==> provArgs(result.0.providerMap, args.Tuple, args.Tuple.Len())
+//@   ensures [C02] len(result.1) == 0 ==> canon(result.0.providerMap)
 //@   loop 1 invariant ec != nil && pset != nil && forall k :: 0 <= k && k < len(pset.Imports) ==> pset.Imports[k].providerMap != nil && pset.Imports[k].srcMap != nil
 //@ func (*gen).writeAST
 //@   requires node != nil && !(node is *ast.File) && !(node is *ast.Package)
